@@ -228,6 +228,48 @@ PROPS = {
         thorough=plans(dict(build="dbg", nshards=16), dict(build="rel", nshards=16), dict(build="asan", nshards=16, scale=0.2), dict(build="miri", nshards=16, timeout=3000)),
         min_evaluations=50000,
     ),
+    "C26": dict(
+        technique="history monitor over virtual time: the verif_hooks time-shift hook ages every bucket under its own lock; "
+                  "each response is classified sent/slipped/dropped at the handle_message boundary and compared step by step "
+                  "with a u128 reference token bucket",
+        rule="one stream per history (fixed source and QNAME) in one of the three categories (NOERROR / NXDOMAIN / REFUSED); "
+             "rate in {1,2,3,7,100,10^6,2^31}, window in {1,2,15,60,4000} with rate*window < 2^32, slip in {0,1,2,5}; 5-400 "
+             "steps with gaps from {0 (bursts), 1, 2, window, window+-1, ceil(2^32/rate)+-1, 10^5, 10^9, 3 years, 2^32, "
+             "2^32+1, 0-9}; evaluations = steps judged; histories whose real duration reached 0.5 s are discarded "
+             "(inconclusive, counted). distinct = (rate, window, slip, category, number of limited steps) classes",
+        assumptions=COMMON_ASSUMPTIONS + [
+            "shifts are whole seconds and the limiter keeps the sub-second remainder, so the reference is exact as long as the "
+            "real duration of a history stays below one second; histories taking >= 0.5 s are discarded",
+            "with slip n > 1 a limited response may be either slipped or dropped"],
+        quick=plans(dict(build="dbg", nshards=16)),
+        thorough=plans(dict(build="dbg", nshards=16), dict(build="rel", nshards=16), dict(build="asan", nshards=16, scale=0.3)),
+        min_evaluations=100000,
+    ),
+    "C27": dict(
+        technique="pairs of requests against a fresh server with a limit of one response per stream; the second response "
+                  "is limited iff the reference (prefix masks, IPv4-mapped canonicalisation, category from the reference "
+                  "responder, QNAME or wildcard source) says both belong to one stream",
+        rule="prefix lengths v4 in {0,1,8,16,24,31,32}, v6 in {0,1,48,56,63,64}; table sizes {1,7,1024,65537}; slip 0/1; second "
+             "request derived from the first: same or one bit flipped at/inside/outside the prefix boundary, IPv4 vs mapped "
+             "IPv6, case variants, two names under one wildcard / under different wildcards, NODATA vs answer, NXDOMAIN vs "
+             "REFUSED vs FORMERR, TCP, NOTIFY/UPDATE/STATUS opcodes. distinct = (relation, limited, category, prefixes, wildcard)",
+        assumptions=COMMON_ASSUMPTIONS + ["pairs taking >= 0.5 s of real time are discarded", "a 2^-32 QNAME-hash collision would be a false alarm"],
+        quick=plans(dict(build="dbg", nshards=16)),
+        thorough=plans(dict(build="dbg", nshards=16), dict(build="rel", nshards=16)),
+        min_evaluations=30000,
+    ),
+    "C28": dict(
+        technique="conservation oracle over concurrent bursts (sent + slipped + dropped = N and sent = min(N, rate*window)) on "
+                  "real OS threads released by a barrier; ThreadSanitizer and Miri (data-race detection) builds of the same workload",
+        rule="T in {2,4,8,16} threads (2-3 under Miri), capacity in {1,5,50,1000} as rate*1 or (rate/5)*5, N from below the "
+             "capacity to 20x, yield_now after every / every 7th / no call; bursts that took >= 0.5 s are discarded. The "
+             "monitor records how many calls were in flight at once (max_overlap_observed); distinct = (T, capacity, N/capacity, overlap)",
+        assumptions=COMMON_ASSUMPTIONS + ["a burst is judged only if it finished within 0.5 s of real time (otherwise a refill is legitimate)"],
+        quick=plans(dict(build="dbg", nshards=16, parallel=4), dict(build="miri", nshards=4, timeout=900)),
+        thorough=plans(dict(build="dbg", nshards=16, parallel=4), dict(build="rel", nshards=16, parallel=4),
+                       dict(build="tsan", nshards=8, parallel=2, scale=0.2), dict(build="miri", nshards=16, timeout=3000, miriflags="-Zmiri-many-seeds=0..8")),
+        min_evaluations=300,
+    ),
     "C14": dict(
         technique="differential execution against an independent RFC 1035 §4.1.4 decoder; panic monitor; Miri/ASan on the same workload",
         rule="exhaustive: every buffer of length <= 5 over the 12 significant octets {0,1,2,3,63,64,0x80,0xbf,0xc0,0xc1,0xff,'a'} "
